@@ -669,11 +669,17 @@ def _work(args):
     good = cases
     unit, drv = build(good)
     ok, stage, st, err = _compile_unit(chibicc, wd, "u", unit)
+    if not ok and st == "timeout":          # a loaded machine is not an observation about chibicc
+        res["error"] = "timeout"
+        return res
     if not ok:
         good = []
         for c in cases:
             u1, _ = build([c])
             ok1, stage1, st1, err1 = _compile_unit(chibicc, wd, "one", u1)
+            if not ok1 and st1 == "timeout":
+                res["error"] = "timeout"
+                return res
             if ok1:
                 good.append(c)
             else:
@@ -683,6 +689,9 @@ def _work(args):
             return res
         unit, drv = build(good)
         ok, stage, st, err = _compile_unit(chibicc, wd, "u", unit)
+        if not ok and st == "timeout":
+            res["error"] = "timeout"
+            return res
         if not ok:
             # every case compiles alone but not together: report the batch as one chained-compilation failure
             res["rejected"].append(("batch:" + good[0].cid, stage + "-only-in-batch", str(st), (err.strip().splitlines() or [""])[-1][:200]))
@@ -691,6 +700,9 @@ def _work(args):
         f.write(drv)
     exe = os.path.join(wd, "t.exe")
     st, out, err = core.run_limited(twin.GCC_DRV + ["-o", exe, "d.c", "u.o", "-no-pie", "-Wl,-z,noexecstack"], cwd=wd, timeout=600)
+    if st == "timeout":
+        res["error"] = "timeout"
+        return res
     if st != 0:
         res["error"] = "driver build failed: " + err[-1500:]
         return res
@@ -752,17 +764,19 @@ def run_family(ctx, fam, cases, stats):
                 stats["rejected"] += 1
                 real = cid[6:] if cid.startswith("batch:") else cid
                 c = byid[real]
-                u1, d1 = FAMILIES[fam]([c])
                 kind = "crash" if st.startswith("-") else "rejected"
                 msg = re.sub(r"[^a-z]+", "-", re.sub(r"^.*?(Error|error):", "", last).lower()).strip("-")[:60]
-                ctx.violation("C04|%s|%s:%s:%s:%s" % (c.cls.split("|")[0], kind, stage, st, msg), "valid unit %s: %s %s -> %s" % (kind, c.cid, stage, last),
+                sig = "C04|%s|%s:%s:%s:%s" % (c.cls.split("|")[0], kind, stage, st, msg)
+                u1, d1 = FAMILIES[fam]([c]) if sig not in ctx.violations else ("", "")
+                ctx.violation(sig, "valid unit %s: %s %s -> %s" % (kind, c.cid, stage, last),
                               files={"unit.c": u1, "driver.c": d1}, replay=REPLAY_REJ)
             for cid, dev, detail in res["lines"]:
                 c = byid[cid]
                 if dev == "harness":
                     raise core.HarnessError("driver complained in %s: %s" % (cid, detail))
-                u1, d1 = FAMILIES[fam]([c])
-                ctx.violation("C04|%s|%s" % (c.cls, dev), "%s: %s" % (c.cid, detail), files={"unit.c": u1, "driver.c": d1}, replay=REPLAY)
+                sig = "C04|%s|%s" % (c.cls, dev)
+                u1, d1 = FAMILIES[fam]([c]) if sig not in ctx.violations else ("", "")
+                ctx.violation(sig, "%s: %s" % (c.cid, detail), files={"unit.c": u1, "driver.c": d1}, replay=REPLAY)
 
 
 def run(ctx):
